@@ -27,6 +27,9 @@ type execSpec struct {
 	FromStep  int    // signals the peer emits before the terminal message
 	WantFrom  bool   // caller passes a channel for emitted signals
 	StepFatal bool
+	// Unattributed: the peer first sends a step-fatal error without run id (every running Execute may fail on it),
+	// then this run's own step-fatal error
+	Unattributed bool
 }
 
 type history struct {
@@ -53,6 +56,7 @@ func histories(tier string) []history {
 		{Name: "2-concurrent-mixed", Groups: [][]execSpec{{{RunID: "r1", ToStep: 1, ToClose: "after", FromStep: 1, WantFrom: true}, {RunID: "r2", StepFatal: true}}}},
 		{Name: "2-concurrent-same-id", Groups: [][]execSpec{{e("r1"), e("r1")}}},
 		{Name: "2-serial-same-id", Groups: [][]execSpec{{e("r1")}, {e("r1")}}},
+		{Name: "2-concurrent-unattributed-fatal-then-1", Groups: [][]execSpec{{{RunID: "r1", StepFatal: true, Unattributed: true}, e("r2")}, {e("r3")}}},
 		{Name: "3-serial", Groups: [][]execSpec{{e("r1")}, {e("r2")}, {e("r3")}}},
 		{Name: "2-concurrent-then-1", Groups: [][]execSpec{{e("r1"), e("r2")}, {e("r3")}}},
 		{Name: "1-then-2-concurrent", Groups: [][]execSpec{{e("r1")}, {e("r2"), e("r3")}}},
@@ -96,7 +100,7 @@ func body(h history) func() {
 		o.peer = peer
 		for _, g := range h.Groups {
 			for _, x := range g {
-				peer.Plans[x.RunID] = atpkit.RunPlan{SignalsFromStep: x.FromStep, StepFatal: x.StepFatal}
+				peer.Plans[x.RunID] = atpkit.RunPlan{SignalsFromStep: x.FromStep, StepFatal: x.StepFatal, UnattributedFatalFirst: x.Unattributed}
 			}
 		}
 		mcrt.GoNamed("peer", peer.Run)
@@ -154,6 +158,9 @@ func body(h history) func() {
 		}
 		o.closeErr = cli.Close()
 		o.closed = true
+		// The engine is done with the plugin and lets go of the pipe: what the peer still has to say (a message for a
+		// run whose caller was already failed by an unattributed error) fails at once instead of waiting for a reader.
+		_ = s2c.Reader().Close()
 	}
 }
 
@@ -179,7 +186,9 @@ func judge(h history, r *mcrt.Result) (string, []mc.Finding) {
 		if r.MainDone {
 			kind = "leaked threads after Close"
 		}
-		add(kind+": "+strings.Join(pat, ", "), fmt.Sprintf("%v", r.Blocked))
+		if len(pat) > 0 || !r.MainDone {
+			add(kind+": "+strings.Join(pat, ", "), fmt.Sprintf("%v", r.Blocked))
+		}
 	}
 	if r.TimerFires > 0 {
 		add("timer needed on a healthy connection", fmt.Sprintf("%d timer(s) fired", r.TimerFires))
@@ -235,6 +244,9 @@ func judge(h history, r *mcrt.Result) (string, []mc.Finding) {
 					continue
 				}
 				if res.Error != nil {
+					if groupHasUnattributed(g) {
+						continue // an error the peer could not attribute to a run fails every Execute running at that time
+					}
 					add("Execute failed on a healthy connection", fmt.Sprintf("run %s: %v", x.RunID, res.Error))
 					continue
 				}
@@ -268,6 +280,15 @@ func judge(h history, r *mcrt.Result) (string, []mc.Finding) {
 		outcome += " " + strings.Join(ks, ",") + fmt.Sprintf(" peer-started=%v", o.peer.Started)
 	}
 	return outcome, fs
+}
+
+func groupHasUnattributed(g []execSpec) bool {
+	for _, x := range g {
+		if x.Unattributed {
+			return true
+		}
+	}
+	return false
 }
 
 func threadRole(name string) string {
